@@ -179,9 +179,21 @@ def nonsparse(a):
 def attainable(a, limit):
     """Clipping at level c gives PAPR(c) = c^2 / mean(min(|x|,c)^2), which decreases to N / #nonzero as c -> 0:
     the limit is attainable by clipping iff N / #nonzero < limit (the property's stated domain)."""
-    m = np.abs(a).reshape(-1)
+    m = np.abs(a).reshape(-1).astype(np.float64)
     nz = int((m > 1e-9 * m.max()).sum())
-    return nz > 0 and m.size / nz <= limit * (1 - 1e-6)
+    if not (nz > 0 and m.size / nz <= limit * (1 - 1e-6)):
+        return False
+    # the clipped signal that meets the limit must itself have non-negligible power: the constraint adds 1e-8 to
+    # average powers, so a signal that has to be clipped down to ~1e-8 is in the 'negligible power' regime
+    lo, hi = 0.0, float(m.max())
+    for _ in range(60):
+        c = (lo + hi) / 2
+        p = np.minimum(m, c) ** 2
+        if c * c / p.mean() > limit:
+            hi = c
+        else:
+            lo = c
+    return float((np.minimum(m, lo) ** 2).mean()) >= 1e-5
 
 
 def check_peak(ctx, cell, case, x):
